@@ -1,4 +1,4 @@
-(* C08 / C11 — concrete programs on which the -O2 parameter-copy elision of the pinned tree changes the
+(* C08 / C11 — the concrete programs on which the -O2 parameter-copy elision of the pinned tree changed the
    behaviour (each replayed on the real compiler by checks/c08.py), evaluated in the model by vm_compute.
    Names: 0 = the global t, 1 = p (value parameter), 2 = r (Referenz parameter), 3 = q, 4 = u, 5 = n, 6 = lokal. *)
 From Coq Require Import List ZArith Bool.
@@ -36,36 +36,32 @@ Definition w_recursion : program :=
                  SAssign 2%nat (ELit [99])] None]
          [SCall None 0%nat [AVal (EVar 0%nat); ARef 4%nat; AVal (EInt 1)]; SPrint (EVar 0%nat); SPrint (EVar 4%nat)].
 
+(* On the pinned tree each of these read freed or changed storage at -O 2 (replayed by checks/c08.py and
+   recorded in KNOWN_FINDINGS as fixed by 91b5d4a); with the repaired elision (may_elide) and the repaired
+   analysis (recursive calls) both modes agree on them. *)
 Lemma w_same_var_runs :
-  run_copy 50 w_same_var = Ok [OSeq [97; 98]; OSeq [97; 98; 88]] /\ run_elide 50 w_same_var = Er EUaf.
+  run_copy 50 w_same_var = Ok [OSeq [97; 98]; OSeq [97; 98; 88]] /\ run_elide 50 w_same_var = run_copy 50 w_same_var.
 Proof. split; vm_compute; reflexivity. Qed.
 
 Lemma w_same_var_inplace_runs :
   run_copy 50 w_same_var_inplace = Ok [OSeq [97; 98]; OSeq [88; 98]] /\
-  run_elide 50 w_same_var_inplace = Ok [OSeq [88; 98]; OSeq [88; 98]].
+  run_elide 50 w_same_var_inplace = run_copy 50 w_same_var_inplace.
 Proof. split; vm_compute; reflexivity. Qed.
 
 Lemma w_global_runs :
-  run_copy 50 w_global = Ok [OSeq [97; 98]; OSeq [110]] /\ run_elide 50 w_global = Er EUaf.
+  run_copy 50 w_global = Ok [OSeq [97; 98]; OSeq [110]] /\ run_elide 50 w_global = run_copy 50 w_global.
 Proof. split; vm_compute; reflexivity. Qed.
 
 Lemma w_recursion_runs :
-  analyse (pfuns w_recursion) = [[true; false; true]] /\
-  run_copy 50 w_recursion = Ok [OSeq [97; 98]; OSeq [99]] /\ run_elide 50 w_recursion = Er EUaf.
+  analyse (pfuns w_recursion) = [[false; false; true]] /\
+  run_copy 50 w_recursion = Ok [OSeq [97; 98]; OSeq [99]] /\ run_elide 50 w_recursion = run_copy 50 w_recursion.
 Proof. split; [|split]; vm_compute; reflexivity. Qed.
 
-(* elision_sound : forall fuel p, run_elide fuel p = run_copy fuel p   is false *)
-Lemma elision_sound_refuted :
-  exists fuel p, run_elide fuel p <> run_copy fuel p.
-Proof. exists 50%nat, w_same_var. destruct w_same_var_runs as [-> ->]. discriminate. Qed.
-
-Lemma elision_sound_refuted_each :
-  run_elide 50 w_same_var <> run_copy 50 w_same_var /\
-  run_elide 50 w_same_var_inplace <> run_copy 50 w_same_var_inplace /\
-  run_elide 50 w_global <> run_copy 50 w_global /\
-  run_elide 50 w_recursion <> run_copy 50 w_recursion.
+Lemma former_witnesses_agree :
+  run_elide 50 w_same_var = run_copy 50 w_same_var /\
+  run_elide 50 w_same_var_inplace = run_copy 50 w_same_var_inplace /\
+  run_elide 50 w_global = run_copy 50 w_global /\
+  run_elide 50 w_recursion = run_copy 50 w_recursion.
 Proof.
-  destruct w_same_var_runs as [-> ->]. destruct w_same_var_inplace_runs as [-> ->].
-  destruct w_global_runs as [-> ->]. destruct w_recursion_runs as (_ & -> & ->).
-  repeat split; discriminate.
+  split; [apply w_same_var_runs|split; [apply w_same_var_inplace_runs|split; [apply w_global_runs|apply w_recursion_runs]]].
 Qed.
